@@ -351,6 +351,13 @@ pub fn m_life(before: &Snap, after: &Snap, step: &Step, ret: &Ret, track: &Track
         if b.status >= FILLED && b != a {
             return bad("terminal-order-changed", format!("{:?} -> {:?}", b, a));
         }
+        // Filled means nothing is left; a market order is Cancelled only for an unfilled remainder
+        if a.status == FILLED && a.vol != 0 {
+            return bad("filled-with-volume-left", format!("{:?}", a));
+        }
+        if b.status == NEW && a.status == CANCELLED && market && a.vol == 0 {
+            return bad("completely-filled-market-order-cancelled", format!("{:?} -> {:?}", b, a));
+        }
         if b.status == NEW && a.status != NEW {
             if a.arr != after.time {
                 return bad(
@@ -379,6 +386,12 @@ pub fn m_life(before: &Snap, after: &Snap, step: &Step, ret: &Ret, track: &Track
         }
         if o.status == ACTIVE && track.is_market.get(nb).copied().unwrap_or(false) {
             return bad("market-order-resting", format!("{:?}", o));
+        }
+        if o.status == FILLED && o.vol != 0 {
+            return bad("filled-with-volume-left", format!("{:?}", o));
+        }
+        if o.status == CANCELLED && o.vol == 0 && track.is_market.get(nb).copied().unwrap_or(false) && o.start_vol > 0 {
+            return bad("completely-filled-market-order-cancelled", format!("{:?}", o));
         }
         if o.status != NEW {
             if o.arr != after.time {
